@@ -47,9 +47,23 @@ RMul(a, b) ==
        IN <<(a[1] \div g1) * (b[1] \div g2), (a[2] \div g2) * (b[2] \div g1)>>
 RInv(b) == IF b[1] < 0 THEN <<-b[2], -b[1]>> ELSE <<b[2], b[1]>>
 RDiv(a, b) == RMul(a, RInv(b))
-\* comparisons cross-cancel the denominators first to stay inside 32 bits
-RLeq(a, b) ==
-  LET g == Gcd(a[2], b[2]) IN a[1] * (b[2] \div g) <= b[1] * (a[2] \div g)
+\* Comparison without any product (products of large numerators and denominators leave
+\* 32 bits): integer parts first, then the fractional parts by their continued fractions.
+RECURSIVE CmpFrac(_, _, _, _)
+\* sign of a/b - c/d for 0 <= a < b, 0 <= c < d
+CmpFrac(a, b, c, d) ==
+  IF a = 0 /\ c = 0 THEN 0
+  ELSE IF a = 0 THEN -1
+  ELSE IF c = 0 THEN 1
+  ELSE LET q1 == b \div a  q2 == d \div c IN
+       IF q1 > q2 THEN -1 ELSE IF q1 < q2 THEN 1
+       ELSE -CmpFrac(b % a, a, d % c, c)
+FloorDiv(n, d) == IF n >= 0 THEN n \div d ELSE -((-n + d - 1) \div d)
+RCmp(a, b) ==
+  LET fa == FloorDiv(a[1], a[2])  fb == FloorDiv(b[1], b[2]) IN
+  IF fa < fb THEN -1 ELSE IF fa > fb THEN 1
+  ELSE CmpFrac(a[1] - fa * a[2], a[2], b[1] - fb * b[2], b[2])
+RLeq(a, b) == RCmp(a, b) <= 0
 RLt(a, b) == ~RLeq(b, a)
 RMin(a, b) == IF RLeq(a, b) THEN a ELSE b
 RMax(a, b) == IF RLeq(a, b) THEN b ELSE a
